@@ -557,7 +557,8 @@ def _check_iv(repo, r3):
     # emitted: the return value starts with the iv
     rets = [m for m in ft.cfg.nodes if m.kind == "return" and m.stmt.value is not None]
     for m in rets:
-        rt = ft.term(m.stmt.value, m.id)
+        from ..terms import norm_concat
+        rt = norm_concat(ft.term(m.stmt.value, m.id))
         first = rt
         while first[0] == "binop" and first[1] == "Add":
             first = first[2]
